@@ -361,13 +361,14 @@ func goRegexSyntax(s string) string {
 
 // RegexCase is replayable without the AST: the expectation is stored.
 type RegexCase struct {
-	Regex string `json:"regex"`
-	Text  string `json:"text"`
-	Want  []Span `json:"want"`
+	Regex  string `json:"regex"`
+	Text   string `json:"text"`
+	Want   []Span `json:"want"`
+	Prefix string `json:"prefix,omitempty"` // definitions placed before the command
 }
 
 func checkRegexCase(c RegexCase) (sig, what string, discard bool) {
-	sc := SpanCase{Src: "find all @/" + c.Regex + "/", Text: c.Text, Want: c.Want, CheckVars: true}
+	sc := SpanCase{Src: strings.TrimSpace(c.Prefix + " find all @/" + c.Regex + "/"), Text: c.Text, Want: c.Want, CheckVars: true}
 	return checkSpanCase(sc)
 }
 
@@ -517,6 +518,12 @@ func TestC14(t *testing.T) {
 			}
 		}
 		c := RegexCase{Regex: res, Text: text, Want: want}
+		if names := reGroupNames(re); len(names) > 0 && rapid.IntRange(0, 3).Draw(t, "shadowdef") == 0 {
+			// an unused definition with the name of a named group: inside the regex the
+			// name is the group
+			c.Prefix = "set " + rapid.SampledFrom(names).Draw(t, "shadowname") + " to pattern 'q'"
+			st.Count("group_named_like_a_definition")
+		}
 		SetInflight(func() string { return jsonStr(Failure{Property: "C14", Kind: "regex", Case: c}) })
 		sig, what, discard := checkRegexCase(c)
 		ClearInflight()
@@ -642,4 +649,19 @@ func TestC14ManyGroups(t *testing.T) {
 			st.NonTrivial(fmt.Sprint(n, k), func() any { return map[string]any{"regex": res, "groups": n, "reference": k} })
 		}
 	}
+}
+
+func reGroupNames(r *RE) []string {
+	var out []string
+	var walk func(r *RE)
+	walk = func(r *RE) {
+		if r.K == "named" {
+			out = append(out, r.S)
+		}
+		for _, k := range r.Kids {
+			walk(k)
+		}
+	}
+	walk(r)
+	return out
 }
